@@ -55,6 +55,8 @@ int run(const Args& A) {
             emit("table B Fb %s", tableStr(tableOf(D, b)).c_str());
             fflush(stdout);
             int rounds = r.chance(1, 2) ? 2 : 1;   // second round = warm compute table
+            std::vector<dd_edge> keep;              // results of the last round, kept alive for the dump
+            std::vector<std::string> keepOps;
             for (int round = 0; round < rounds; round++) {
                 const char* names[] = {"UNION", "INTERSECTION", "DIFFERENCE"};
                 binary_builtin0 ops[] = {UNION, INTERSECTION, DIFFERENCE};
@@ -65,6 +67,7 @@ int run(const Args& A) {
                         emit("op R%d %s A B", o, names[o]);
                         emit("table R%d Fc %s", o, tableStr(tableOf(D, res)).c_str());
                         STATS.hit(std::string("op.") + names[o]);
+                        if (round == rounds - 1) { keep.push_back(res); keepOps.push_back(std::string("R") + char('0' + o) + " " + names[o] + " A B"); }
                     } catch (error& e) {
                         emit("err R%d %s A B %s", o, names[o], errName(e));
                         emit("note thrown-at %s:%u", e.getFile(), e.getLine());
@@ -78,6 +81,7 @@ int run(const Args& A) {
                         emit("op R3 COMPLEMENT A");
                         emit("table R3 Fc %s", tableStr(tableOf(D, res)).c_str());
                         STATS.hit("op.COMPLEMENT");
+                        if (round == rounds - 1) { keep.push_back(res); keepOps.push_back("R3 COMPLEMENT A"); }
                     } catch (error& e) {
                         emit("err R3 COMPLEMENT A %s", errName(e));
                         STATS.hit(std::string("err.") + errName(e));
@@ -111,7 +115,17 @@ int run(const Args& A) {
                 // result forest must stay canonical with exact counts
                 if (round == rounds - 1) {
                     emitAudit("Fc", fs[2].F, fs[2].k);
-                    if (fs[0].F != fs[2].F) emitAudit("Fa", fs[0].F, fs[0].k);
+                    emitAudit("Fa", fs[0].F, fs[0].k);
+                    emitAudit("Fb", fs[1].F, fs[1].k);
+                    // structural tie: the model's apply on the dumped operands must give the dumped result tree
+                    emitRoot("A", "Fa", a, fs[0].k);
+                    emitRoot("B", "Fb", b, fs[1].k);
+                    for (size_t i = 0; i < keep.size(); i++) {
+                        std::string rn = keepOps[i].substr(0, 2);
+                        emitRoot(rn, "Fc", keep[i], fs[2].k);
+                        emit("modelop %s", keepOps[i].c_str());
+                    }
+                    keep.clear();
                 }
                 // operands must be unchanged
                 emit("table A Fa %s", tableStr(tableOf(D, a)).c_str());
